@@ -416,6 +416,13 @@ class _C14Base(BytesMixin, ZListMixin, UnitsExecutor):
                 return [(st, VBool(z3.Or([self.bytes_prefix_eq(item, self.const_bytes(x), exact=True) for x in items] + [z3.BoolVal(False)])))]
         return super().contains(st, container, item, node)
 
+    def b_isinstance(self, st, args, kwargs, node):
+        if args and self.is_zlist(st, args[0]):
+            t = args[1]
+            types = [x.name for x in (t.items if isinstance(t, VTuple) else [t]) if isinstance(x, VType)]
+            return [(st, VBool("list" in types))]
+        return super().b_isinstance(st, args, kwargs, node)
+
     # ---- zlists ----
     def truth(self, st, v):
         if self.is_zlist(st, v):
@@ -797,5 +804,11 @@ def install_models(reg):
     c03_exec.install(reg)
     # struct.unpack / unpack_from / int.from_bytes are dispatched in C14Executor.call; registering the names makes
     # `struct.unpack` resolve to an external function value
+    def m_unquote(ex, st, args, kwargs, node):
+        from contracts.c14_spec import PCT
+        if len(args) >= 1 and isinstance(args[0], VStr) and not kwargs and len(args) == 1:
+            return [(st, VStr(PCT(args[0].t)))]
+        return ex.havoc_call(st, "urllib.parse.unquote", args, node)
+    reg.ext_models.setdefault("urllib.parse.unquote", m_unquote)
     reg.ext_models.setdefault("struct.unpack", lambda ex, st, args, kwargs, node: ex.m_struct_unpack(st, args, kwargs, node))
     reg.ext_models.setdefault("struct.unpack_from", lambda ex, st, args, kwargs, node: ex.m_struct_unpack(st, args, kwargs, node, from_=True))
